@@ -90,6 +90,11 @@ class C16(Check):
                     if sub != "all" and tier == "quick" and k not in (0, 3, 4, 7, 8, 9):
                         continue
                     out.append({"name": f"{cls}-{sub}-seq{k}", "cls": cls, "subset": sub, "seq": [list(o) for o in seq], "N": N, "d": 2, "timeout_ms": 60000})
+        # a model parameter that is named like a field of the class (a parameter called
+        # "beta" in a tempered population): the nested dictionary layout keeps them apart
+        for cls, names in (("SMCSamples", ["beta", "alpha"]), ("Samples", ["log_evidence", "alpha"]), ("BaseSamples", ["log_q", "alpha"])):
+            for seq in ([("dict_nested",)], [("pickle",)], [("slice", 1, 3), ("dict_nested",)]):
+                out.append({"name": f"{cls}-all-fieldname-{seq[-1][0]}{len(seq)}", "cls": cls, "subset": "all", "seq": [list(o) for o in seq], "N": N, "d": 2, "timeout_ms": 60000, "params": names})
         return out
 
     # ------------------------------------------------------------------
@@ -110,7 +115,7 @@ class C16(Check):
             kw = dict(fields)
             if cfg["cls"] == "SMCSamples":
                 kw["beta"] = 0.25
-            params = ["alpha", "bravo"]
+            params = list(cfg.get("params") or ["alpha", "bravo"])
             s = cls(x=x, parameters=list(params), xp=sx, dtype=sx.float32, **kw)
             extra = {}
             if cfg["cls"] == "Samples" and sub == "all":
@@ -158,7 +163,7 @@ class C16(Check):
                 kw["log_q"] = np.asarray(env_array(env, "lq", (N,)))
             if cfg["cls"] == "SMCSamples":
                 kw["beta"] = 0.25
-            cur = cls(x=x, parameters=["alpha", "bravo"], **kw)
+            cur = cls(x=x, parameters=list(cfg.get("params") or ["alpha", "bravo"]), **kw)
             for step, op in enumerate(seq):
                 kind = op[0]
                 n = len(cur.x)
@@ -348,7 +353,7 @@ def replay_c16(cex):
     kw = dict(f)
     if cfg["cls"] == "SMCSamples":
         kw["beta"] = 0.25
-    params = ["alpha", "bravo"]
+    params = list(cfg.get("params") or ["alpha", "bravo"])
     bad = []
     with np.errstate(all="ignore"):
         s = cls(x=x, parameters=list(params), dtype=np.float64, **kw)
